@@ -34,19 +34,19 @@ theorem NoPPP_blank {s : Streams} (hb : Blank s) : NoPPP s := NoPPP_of_slab_nil 
 -- ===================================================================== role and push switch never change
 
 /-- role and `recv.is_push_enabled` are the same -/
-def RP (s s' : Streams) : Prop :=
+def RoleKeep (s s' : Streams) : Prop :=
   s'.counts.isServer = s.counts.isServer ∧ s'.recv.isPushEnabled = s.recv.isPushEnabled
 
-theorem RP.of_view {s s' : Streams} (h : view s' = view s) : RP s s' :=
+theorem RoleKeep.of_view {s s' : Streams} (h : view s' = view s) : RoleKeep s s' :=
   ⟨congrArg (·.isServer) h, congrArg (·.rPush) h⟩
-theorem RP.of_view' {s s' : Streams} {v : ConnCtlP.View} (h : view s' = v) (h1 : v.isServer = (view s).isServer)
-    (h2 : v.rPush = (view s).rPush) : RP s s' :=
+theorem RoleKeep.of_view' {s s' : Streams} {v : ConnCtlP.View} (h : view s' = v) (h1 : v.isServer = (view s).isServer)
+    (h2 : v.rPush = (view s).rPush) : RoleKeep s s' :=
   ⟨(congrArg (·.isServer) h).trans h1, (congrArg (·.rPush) h).trans h2⟩
-theorem RP.noPush {s s' : Streams} (h : RP s s') (hp : NoPush s) : NoPush s' := by
+theorem RoleKeep.noPush {s s' : Streams} (h : RoleKeep s s') (hp : NoPush s) : NoPush s' := by
   unfold NoPush; rw [h.1, h.2]; exact hp
 
 /-- **no operation changes the role or `recv.is_push_enabled`** (ConnCtlP's `view` lemmas) -/
-theorem op_rp (s : Streams) (op : Op) : RP s (op.apply s) := by
+theorem op_roleKeep (s : Streams) (op : Op) : RoleKeep s (op.apply s) := by
   cases op <;> simp only [Op.apply]
   case recvHeaders h =>
     obtain ⟨l, hl, _⟩ := ConnCtlP.view_recvHeaders s h
@@ -69,10 +69,10 @@ theorem op_rp (s : Streams) (op : Op) : RP s (op.apply s) := by
   case panic m => exact .of_view (ConnCtlP.view_panic s m)
   all_goals exact .of_view (by simp)
 
-theorem RP.noPush_back {s s' : Streams} (h : RP s s') (hp : NoPush s') : NoPush s := by
+theorem RoleKeep.noPush_back {s s' : Streams} (h : RoleKeep s s') (hp : NoPush s') : NoPush s := by
   unfold NoPush at hp ⊢; rw [h.1, h.2] at hp; exact hp
 
-theorem NoPush_step {s : Streams} (hp : NoPush s) (op : Op) : NoPush (op.apply s) := (op_rp s op).noPush hp
+theorem NoPush_step {s : Streams} (hp : NoPush s) (op : Op) : NoPush (op.apply s) := (op_roleKeep s op).noPush hp
 
 theorem NoPush_run {s : Streams} (hp : NoPush s) (ops : List Op) : NoPush (run s ops) := by
   induction ops generalizing s with
@@ -216,6 +216,6 @@ theorem NoPPP.opPre_drop {s : Streams} (hj : NoPPP s) (k : Nat) : opPre s (.drop
 theorem hreach_noPPP {s : Streams} {H : List Nat} (h : HReach s H) (hp : NoPush s) : NoPPP s := by
   induction h with
   | init hb _ _ => exact NoPPP_blank hb
-  | step op _ _ _ ih => exact NoPPP_step (ih ((op_rp _ op).noPush_back hp)) ((op_rp _ op).noPush_back hp) op
+  | step op _ _ _ ih => exact NoPPP_step (ih ((op_roleKeep _ op).noPush_back hp)) ((op_roleKeep _ op).noPush_back hp) op
 
 end H2V.Lemmas.ConnNoPanicP
